@@ -735,6 +735,81 @@ mod proofs {
 }
 
     #[kani::proof]
+    #[kani::unwind(6)]
+    fn fix_partition_n1to4() {
+        let vals: [u8; 4] = kani::any();
+        let len: usize = kani::any();
+        kani::assume(len >= 1 && len <= 4);
+        let mut buf = vals;
+        let mut v = ArrayViewMut1::from(&mut buf[..len]);
+        let p: usize = kani::any();
+        kani::assume(p < len);
+        let pv = v[p];
+        let k = v.partition_mut(p);
+        assert!(k < len && v[k] == pv);
+        let mut less = 0usize;
+        for t in 0..4 { if t < len && vals[t] < pv { less += 1; } }
+        assert!(k == less);
+        for t in 0..4 { if t < len { if t < k { assert!(v[t] < pv); } if t > k { assert!(v[t] >= pv); } } }
+        kani::cover!(len == 1, "single element reachable");
+    }
+
+    #[kani::proof]
+    #[kani::unwind(6)]
+    #[kani::should_panic]
+    fn fix_select_oob_step() {
+        let vals: [u8; 3] = kani::any();
+        let len: usize = kani::any();
+        kani::assume(len <= 3);
+        let mut buf = vals;
+        let mut v = ArrayViewMut1::from(&mut buf[..len]);
+        let i: usize = kani::any();
+        kani::assume(i >= len);
+        unsafe { ndarray_stats::verif_hooks::CUT_AFTER = 1; }
+        let _ = v.get_from_sorted_mut(i);
+        kani::cover!(true, "RETURNED-WITHOUT-PANIC");
+    }
+
+    #[kani::proof]
+    #[kani::unwind(5)]
+    fn argmin_3d_dyn() {
+        let vals: [i8; 4] = kani::any();
+        let a = Array3::from_shape_vec((2, 1, 2), vals.to_vec()).unwrap();
+        let p = a.view().permuted_axes([2, 1, 0]); // p[(k,0,i)] = a[(i,0,k)] = vals[i*2+k]
+        let (k, z, i) = p.argmin().unwrap();
+        assert!(z == 0 && i < 2 && k < 2);
+        let m = vals[i * 2 + k];
+        for t in 0..4 { assert!(m <= vals[t]); }
+        let d = a.view().into_dyn();
+        let idx = d.argmax().unwrap();
+        let mm = d[&idx];
+        for t in 0..4 { assert!(mm >= vals[t]); }
+        let e = Array2::<i8>::zeros((2, 0));
+        assert!(e.argmin() == Err(errors::MinMaxError::EmptyInput));
+        let z0 = ndarray::arr0(vals[0]);
+        assert!(z0.argmin() == Ok(()));
+        assert!(*z0.max().unwrap() == vals[0]);
+    }
+
+    #[kani::proof]
+    #[kani::unwind(6)]
+    fn fold_skipnan_2x2() {
+        let vals: [f32; 4] = kani::any();
+        let a = Array2::from_shape_vec((2, 2), vals.to_vec()).unwrap();
+        let t = a.t();
+        let (cnt, sum) = t.fold_skipnan((0u32, 0u32), |(c, s), x| (c + 1, s.wrapping_add(x.raw().to_bits().wrapping_mul(3).wrapping_add(1))));
+        let mut oc = 0u32; let mut os = 0u32;
+        for k in 0..4 { if !vals[k].is_nan() { oc += 1; os = os.wrapping_add(vals[k].to_bits().wrapping_mul(3).wrapping_add(1)); } }
+        assert!(cnt == oc && sum == os);
+        let m = t.min_skipnan();
+        if oc == 0 { assert!(m.is_nan()); } else { assert!(!m.is_nan()); for k in 0..4 { if !vals[k].is_nan() { assert!(*m <= vals[k]); } } }
+        match t.argmax_skipnan() {
+            Ok((i, j)) => { let v = vals[j * 2 + i]; assert!(!v.is_nan()); for k in 0..4 { if !vals[k].is_nan() { assert!(v >= vals[k]); } } }
+            Err(_) => assert!(oc == 0),
+        }
+    }
+
+    #[kani::proof]
     fn index_arith() {
         let qf: f64 = kani::any();
         kani::assume(qf >= 0.0 && qf <= 1.0);
